@@ -91,7 +91,7 @@ func (t *treeSession) rpc(m *gmsg) (*go9p.Fcall, error) {
 
 func hxs(s string) string { return hx([]byte(s)) }
 
-var nameGrammar = []string{"..", ".", "", "/", "a", "b", "sub", "a/..", "a/../..", "../x", "../../x", "/../x", "/etc", "../canary", "..//..", "a/./b", "x y", "../outerdir", "sub/../../canary", "...", "..a", "a..", "/"}
+var nameGrammar = []string{"../root-private/canary", "../rootx", "../root-private/new", "/../root-private/canary", "..", ".", "", "/", "a", "b", "sub", "a/..", "a/../..", "../x", "../../x", "/../x", "/etc", "../canary", "..//..", "a/./b", "x y", "../outerdir", "sub/../../canary", "...", "..a", "a..", "/"}
 
 func pickName() string {
 	if rng.Intn(3) == 0 {
@@ -176,6 +176,10 @@ func confinementSessions(n int, base string) {
 		_ = os.WriteFile(filepath.Join(outer, "canary"), []byte("canary"), 0o644)
 		_ = os.WriteFile(filepath.Join(outer, "outerdir", "c2"), []byte("canary2"), 0o644)
 		_ = os.WriteFile(filepath.Join(outer, "x"), []byte("outer-x"), 0o644)
+		// siblings whose names have the root's name as a proper prefix
+		_ = os.MkdirAll(filepath.Join(outer, "root-private"), 0o755)
+		_ = os.WriteFile(filepath.Join(outer, "root-private", "canary"), []byte("canary3"), 0o644)
+		_ = os.WriteFile(filepath.Join(outer, "rootx"), []byte("canary4"), 0o644)
 		before := snapshot(outer)
 		delete(before, "root")
 		outsideInos := map[uint64]bool{inoOf(outer): true, inoOf(filepath.Join(outer, "canary")): true,
